@@ -4,7 +4,7 @@
    unused-sequence documents written by that op (decoded from their keys), the value of the shared
    counter, and whether the call is parked between its read of the counter and its increment.  At the
    end the list of unused-sequence documents found in the bucket must be the model's. *)
-From SG Require Export Base.Prelude Base.Bytes C07.Allocator.
+From SG Require Export Base.Prelude Base.Bytes C07.Allocator C07.Cluster.
 Open Scope N_scope.
 
 Record obs := Obs {
@@ -16,8 +16,25 @@ Record obs := Obs {
   o_parked : bool               (* nextSequenceGreaterThan stopped at getSequence, mutex held *)
 }.
 
+(* cluster model (Cluster.v): what the harness of harness/db/verif_c07_cluster_test.go observes after every
+   step of its explicit-turn scheduler *)
+Record xobs := XObs {
+  xo_hand : option N;
+  xo_err : bool;
+  xo_ranges : list (N * N);
+  xo_ones : list N;
+  xo_counter : N;
+  xo_park : N;                  (* where the call of the acting node is suspended: 0 not suspended, 1 after
+                                   getSequence, 2 before the Get of _fixSyncSeqRollback, 3 before its Incr,
+                                   4 before the Incr that follows it in nextSequenceGreaterThan *)
+  xo_last : N;                  (* fields of the acting allocator after the step *)
+  xo_max : N;
+  xo_batch : N
+}.
+
 Inductive case :=
-| CRun (steps : list (op * obs)) (docs_ranges : list (N * N)) (docs_ones : list N).
+| CRun (steps : list (op * obs)) (docs_ranges : list (N * N)) (docs_ones : list N)
+| XRun (steps : list (xop * xobs)) (docs_ranges : list (N * N)) (docs_ones : list N).
 
 Definition hand_of (ev : list event) : option N :=
   match flat_map (fun e => match e with EHand _ s _ => [s] | _ => [] end) ev with
@@ -55,14 +72,44 @@ Fixpoint check_steps (st : state) (l : list (op * obs)) (acc : list event) : boo
       if obs_matches st' o ev ob then check_steps st' r (acc ++ ev) else (false, acc)
   end.
 
+Definition park_code (p : pcs) : N :=
+  match p with PIdle => 0 | PGt _ _ => 1 | PFixCas _ _ => 2 | PFixIncr _ => 3 | PGtFixed _ _ => 4 end.
+
+Definition xobs_matches (st' : cluster) (o : xop) (ev : list event) (ob : xobs) : bool :=
+  negb (skip_of ev) &&
+  (Nat.leb (hands_count ev) 1) &&
+  option_eqb N.eqb (hand_of ev) (xo_hand ob) &&
+  Bool.eqb (err_of ev) (xo_err ob) &&
+  list_eqb pair_eqb (ranges_of ev) (xo_ranges ob) &&
+  list_eqb N.eqb (ones_of ev) (xo_ones ob) &&
+  (c_counter st' =? xo_counter ob) &&
+  match o with
+  | XEnvIncr _ | XRollback _ => true
+  | _ => let a := c_nodes st' (xactor o) in
+         (park_code (n_pc a) =? xo_park ob) && (n_last a =? xo_last ob) && (n_max a =? xo_max ob) &&
+         (n_batch a =? xo_batch ob)
+  end.
+
+Fixpoint xcheck_steps (st : cluster) (l : list (xop * xobs)) (acc : list event) : bool * list event :=
+  match l with
+  | [] => (true, acc)
+  | (o, ob) :: r =>
+      let '(st', ev) := xstep st o in
+      if xobs_matches st' o ev ob then xcheck_steps st' r (acc ++ ev) else (false, acc)
+  end.
+
 Definition check (c : case) : bool :=
   match c with
   | CRun steps dr d1 =>
       let '(ok, tr) := check_steps init steps [] in
+      ok && list_eqb pair_eqb (ranges_of tr) dr && list_eqb N.eqb (ones_of tr) d1
+  | XRun steps dr d1 =>
+      let '(ok, tr) := xcheck_steps xinit steps [] in
       ok && list_eqb pair_eqb (ranges_of tr) dr && list_eqb N.eqb (ones_of tr) d1
   end.
 
 Definition mismatches (cs : list case) : list N := failing check cs.
 
 (* short constructors for the generated files *)
+Definition XB (h : option N) (e : bool) (rs : list (N * N)) (os : list N) (c p l m b : N) : xobs := XObs h e rs os c p l m b.
 Definition OB (h : option N) (e : bool) (rs : list (N * N)) (os : list N) (c : N) (p : bool) : obs := Obs h e rs os c p.
